@@ -20,7 +20,12 @@ func (basic *Basic) parse(p property) (err error) {
 	case xmpns.ModifyDate:
 		basic.ModifyDate, err = parseDate(p.Value())
 	case xmpns.Rating:
-		basic.Rating = int8(parseUint8(p.Value()))
+		// -1 is "rejected", the one negative rating XMP defines
+		if v := p.Value(); len(v) > 1 && v[0] == '-' {
+			basic.Rating = -int8(parseUint8(v[1:]))
+		} else {
+			basic.Rating = int8(parseUint8(v))
+		}
 	default:
 		return ErrPropertyNotSet
 	}
